@@ -16,6 +16,7 @@ import sys
 sys.path.insert(0, os.path.dirname(os.path.abspath(__file__)))
 import common  # pylint: disable=g-import-not-at-top
 import corpus  # pylint: disable=g-import-not-at-top
+import stress_programs  # pylint: disable=g-import-not-at-top
 
 PYVER = (3, 12)
 
@@ -130,21 +131,28 @@ def main():
   progs = corpus.load(repo, stride=4 if tier == 'quick' else 1)
   nshards = 8
   shards = [progs[i::nshards] for i in range(nshards)]
+  # the hand-written collision/stress programs go into every shard (8 shards x configs = many hash seeds each)
+  stress = list(stress_programs.PROGRAMS)
+  progs = progs + stress
   configs = [dict(hashseed='0', reverse=False, reuse_loader=False),
              dict(hashseed=str(1 + seed), reverse=True, reuse_loader=True)]
   if tier != 'quick':
     configs += [dict(hashseed='12345', reverse=False, reuse_loader=True),
                 dict(hashseed='4242', reverse=True, reuse_loader=False)]
   procs = []
+  actual_seed = {}
   common.ensure_ext(repo)   # build once before the workers start
   for si, shard in enumerate(shards):
     for ci, cfg in enumerate(configs):
-      env = dict(os.environ, PYTHONHASHSEED=cfg['hashseed'], PYTHONPATH=repo, PYTHONDONTWRITEBYTECODE='1')
+      # the first configuration is the common reference (seed 0); the others get a different hash seed in every shard
+      hs = cfg['hashseed'] if ci == 0 else str(int(cfg['hashseed']) * 31 + si * 7 + 1)
+      env = dict(os.environ, PYTHONHASHSEED=hs, PYTHONPATH=repo, PYTHONDONTWRITEBYTECODE='1')
       p = subprocess.Popen(['/venv/bin/python', '-B', os.path.abspath(__file__), 'worker', repo],
                            stdin=subprocess.PIPE, stdout=subprocess.PIPE, stderr=subprocess.PIPE, text=True, env=env, cwd='/')
-      p.stdin.write(json.dumps(dict(programs=shard, reverse=cfg['reverse'], reuse_loader=cfg['reuse_loader'])))
+      p.stdin.write(json.dumps(dict(programs=shard + stress, reverse=cfg['reverse'], reuse_loader=cfg['reuse_loader'])))
       p.stdin.close()
       procs.append((si, ci, p))
+      actual_seed[(si, ci)] = hs
   results = {}
   violations = list(pre_violations)
   for si, ci, p in procs:
@@ -180,7 +188,7 @@ def main():
           if r0[field] != r1[field]:
             if len(violations) < 10:
               violations.append(dict(kind='nondeterministic', field=field,
-                                     what='%s differs between %r and %r: %r vs %r' % (field, configs[0], configs[ci], str(r0[field])[:300], str(r1[field])[:300]),
+                                     what='%s differs between %r and %r: %r vs %r' % (field, dict(configs[0], hashseed=actual_seed[(si, 0)]), dict(configs[ci], hashseed=actual_seed[(si, ci)]), str(r0[field])[:300], str(r1[field])[:300]),
                                      program=name, src=srcs[name]))
             break
   print(json.dumps(dict(
